@@ -1,7 +1,7 @@
 """Assumed behaviour of abstract user callables (A-user) by kind; see pyvc/verify.py oracle_hook."""
 ORACLES = {
     # a registered RPC method after binding (the functools.partial built by Method.bind)
-    'UserMethod': {'returns': 'any', 'raises': ('Exception',), 'raised_invariant': 'spec.user:raised_ok'},
+    'UserMethod': {'returns': 'encodable', 'raises': ('Exception',), 'raised_invariant': 'spec.user:raised_ok'},
     # middlewares, error handlers, tracers: "do not raise" is the user contract stated in C01 / C12 / C19
     'UserMiddleware': {'returns': 'any', 'raises': ()},
     'UserErrorHandler': {'returns': 'pjrpc.common.exceptions:JsonRpcError', 'raises': (),
